@@ -57,6 +57,8 @@ class SessionModel(object):
             return ('value', None)
         if k == 'locks':
             return ('locks',)
+        if k == 'maxchunk':
+            return ('any',)
         path = op.get('path')
         if k in ('list', 'stat', 'pull', 'push') and not path:
             return ('exc', ('DevicePathInvalidError',), None)
